@@ -581,6 +581,7 @@ def main(replay=None):
         st_io, seqs = check_io(ck, hb, quick, rcases)
     if not replay or rmach in ("geometry", "sensors", "mesh", "linop"):
         st_obj = check_objects(ck, hb, quick, rcases)
+    ck.drop_proof_violation_if(any(v[3] for v in ck.violations))
     nobj = sum(st_obj.get(k, {}).get("ops", 0) for k in ("geometry", "sensors", "mesh", "linop"))
     ck.cov.update(evaluations=st_io.get("ops", 0) + nobj,
                   distinct_nontrivial=len({json.dumps(s) for s in seqs if len(s[1]) >= 2}) + sum(st_obj.get(k, {}).get("seqs", 0) for k in ("geometry", "sensors", "mesh", "linop")),
